@@ -175,7 +175,6 @@ func ruleClosedEmission(c *Ctx, rule string) {
 	c.floor(rule, "census entries", n, 15)
 }
 
-
 // ruleRangeChannelDirection (C04.11): a generated `for _, ch := range []<dir>chan T{...} { body }` only does with ch what its
 // element type permits: no close(ch) when the element type is receive-only, no receive when it is send-only. The body may
 // be spliced in through a parameter of a template helper; the templates at the helper's call sites are then the body.
@@ -183,7 +182,9 @@ func ruleRangeChannelDirection(c *Ctx, rule string) {
 	L := c.L
 	p := L.Pkgs[genPkg]
 	sites := collectTemplates(p)
-	within := func(s *tmplSite, e ast.Expr) bool { return e != nil && s.lit.Pos() >= e.Pos() && s.lit.End() <= e.End() }
+	within := func(s *tmplSite, e ast.Expr) bool {
+		return e != nil && s.lit.Pos() >= e.Pos() && s.lit.End() <= e.End()
+	}
 	under := func(s, anc *tmplSite, slot string) bool {
 		for q := s; q.parent != nil; q = q.parent {
 			if q.parent == anc {
